@@ -51,7 +51,7 @@ def REQUIRED(tier):
 def _required(tier):
     return ["ops:seek_set", "ops:seek_cur", "ops:cread", "ops:creadinto", "position_checks", "content_checks",
             "regime:read_spans_two_boundaries", "regime:seek_back_over_boundary", "regime:creadinto_hits_end",
-            "regime:cread_past_end_raises", "regime:absolute_seek_after_refused_cread", "regime:second_reader_interleaved", "read_block:same_request_after_in_place_edit", "regime:position_exactly_at_boundary", "read_block:in_range", "read_block:rejected", "regime:member_file_with_trailing_partial_sample", "regime:file_listed_twice", "regime:relative_names_then_chdir", "giant_stream_ops", "regime:members_not_in_time_order", "ops:seek_by_one_header_length"]
+            "regime:cread_past_end_raises", "regime:absolute_seek_after_refused_cread", "regime:second_reader_interleaved", "read_block:same_request_after_in_place_edit", "read_block:continuing_after_a_plan", "creadinto:slices_of_one_staging_buffer", "regime:position_exactly_at_boundary", "read_block:in_range", "read_block:rejected", "regime:member_file_with_trailing_partial_sample", "regime:file_listed_twice", "regime:relative_names_then_chdir", "giant_stream_ops", "regime:members_not_in_time_order", "ops:seek_by_one_header_length"]
 
 
 def EXHAUSTIVE(tier):
@@ -180,6 +180,7 @@ def run_history(ctx, hdr_sinfo, nbits, model, bounds, ops, case_rec):
     try:
         after_raise = False
         rd2 = None
+        stage = None
         for step, (name, arg) in enumerate(ops):
             if step % 5 == 2 and T >= 2 * isz and len(ops) > 6:
                 # a second reader on the same files, alive at the same time and used in turn: each has its own position (and its own open files)
@@ -263,6 +264,16 @@ def run_history(ctx, hdr_sinfo, nbits, model, bounds, ops, case_rec):
                 ctx.count("ops:creadinto")
                 buf = bytearray(b"\x5a" * arg)
                 ubuf = bytearray(b"\x5a" * (arg * per)) if per > 1 else None
+                if step % 2 and arg:
+                    # block-by-block filling of one staging buffer: equally long slices of the same buffers at different offsets
+                    if stage is None or len(stage[0]) < 3 * arg:
+                        stage = (bytearray(3 * arg + 64), bytearray((3 * arg + 64) * per))
+                    off = (step // 2 % 3) * arg
+                    stage[0][off : off + arg] = b"\x5a" * arg
+                    stage[1][off * per : (off + arg) * per] = b"\x5a" * (arg * per)
+                    buf = memoryview(stage[0])[off : off + arg]
+                    ubuf = memoryview(stage[1])[off * per : (off + arg) * per] if per > 1 else None
+                    ctx.count("creadinto:slices_of_one_staging_buffer")
                 try:
                     n = rd.creadinto(buf, ubuf)
                     raised = None
@@ -563,6 +574,15 @@ def run_case(case, ctx):
                     blk2 = fil.read_block(start, nsamps)
                     if blk2.data.shape != want.shape or not np.array_equal(blk2.data.astype(np.float64), want):
                         ctx.violation("read_block-content:after-in-place-edit-of-earlier-block", f"read_block({start},{nsamps}) repeated after the first block was overwritten in place does not return the file's samples", one)
+                        continue
+                if (start + nsamps) % 4 == 1 and start + nsamps < N:
+                    # block, then some streaming access on the same reader, then the block that follows the first one
+                    for _ in fil.read_plan(gulp=2, start=0, nsamps=min(3, N), quiet=True, description="v"):
+                        pass
+                    ctx.count("read_block:continuing_after_a_plan")
+                    blk3 = fil.read_block(start + nsamps, 1)
+                    if not np.array_equal(blk3.data.astype(np.float64), Xf[start + nsamps : start + nsamps + 1].T):
+                        ctx.violation("read_block-content:continuing-after-a-plan", f"read_block({start + nsamps},1) issued after read_block({start},{nsamps}) and a short read_plan does not return sample {start + nsamps}", one)
                         continue
                 if any(start * 1 < b / max(1, (nch * nbits // 8)) < start + nsamps for b in bounds):
                     ctx.nontrivial_case(one)
